@@ -18,6 +18,7 @@ import (
 )
 
 type Prog struct {
+	nameSnap   map[string][]string // declared names of functions under contract when the contracts were written
 	prog       *ssa.Program
 	pkgs       []*packages.Package
 	allPkgs    map[string]*packages.Package
@@ -466,4 +467,60 @@ func (P *Prog) immutableGlobal(l Loc) (Value, bool) {
 		ts[i] = t
 	}
 	return fromLeaves(ty, ts), true
+}
+
+// ---- declaration names: tolerance to renamed parameters and locals ----
+//
+// Contracts name parameters and (in loop invariants and call-site clauses) locals. A snapshot
+// of the declared names of every function under contract, in declaration order, is kept in
+// /verif/names.json (written by `vcgen -names-out`). If the current source declares the same
+// number of names and some differ, the identifier of the contract is resolved to the name now
+// declared at the same position. Only used when an identifier cannot be resolved otherwise.
+
+// declNames: parameter names, then the source-named locals in declaration order.
+func declNames(fn *ssa.Function) []string {
+	var out []string
+	for _, p := range fn.Params {
+		out = append(out, p.Name())
+	}
+	type nl struct {
+		name string
+		pos  token.Pos
+	}
+	var locals []nl
+	seen := map[token.Pos]bool{}
+	for _, b := range fn.Blocks {
+		for _, ins := range b.Instrs {
+			if a, ok := ins.(*ssa.Alloc); ok && a.Comment != "" && a.Pos().IsValid() && !seen[a.Pos()] {
+				seen[a.Pos()] = true
+				locals = append(locals, nl{a.Comment, a.Pos()})
+			}
+		}
+	}
+	sort.SliceStable(locals, func(i, j int) bool { return locals[i].pos < locals[j].pos })
+	for _, l := range locals {
+		out = append(out, l.name)
+	}
+	return out
+}
+
+// renameMap: old name -> new name for positions at which the snapshot and the current
+// declaration lists differ (nil unless both lists have the same length).
+func renameMap(old, cur []string) map[string]string {
+	if len(old) == 0 || len(old) != len(cur) {
+		return nil
+	}
+	m := map[string]string{}
+	for i := range old {
+		if old[i] != cur[i] {
+			if prev, dup := m[old[i]]; dup && prev != cur[i] {
+				return nil // ambiguous
+			}
+			m[old[i]] = cur[i]
+		}
+	}
+	if len(m) == 0 {
+		return nil
+	}
+	return m
 }
